@@ -84,3 +84,39 @@ Theorem C05_cover_safety_as_subpath_constraints_preserves_feasibility :
   ((exists a, sat a (encode_kpc (add_cons_p B Ss) ignore)) <-> (exists a, sat a (encode_kpc B ignore))).
 Proof. exact cover_safety_as_constraints_preserves_feasibility. Qed.
 Print Assumptions C05_cover_safety_as_subpath_constraints_preserves_feasibility.
+
+(* ---- audit additions (agent-walk, audit/props_C03_C05_C07_C08.md): the Examples above stated the two specific hypotheses of the fixing
+   theorem and only the CONCLUSION side of the two constraint theorems; here every hypothesis of each theorem on the diamond ---- *)
+From FP Require Import AuditExamples.
+Example C05_fixing_all_premises_satisfiable :
+  PathEncProofs.wf_graph (p_graph (f_base (exI 2))) /\ p_allow_empty (f_base (exI 2)) = false /\
+  (forall u v, In (u, v) (g_edges (p_graph (f_base (exI 2)))) -> (exRank u < exRank v)%nat) /\ (forall v, (exRank v <= 3)%nat) /\
+  (forall c e, In c (p_cons (f_base (exI 2))) -> In e c -> In e (g_edges (p_graph (f_base (exI 2)))) /\ (0 <= elen (f_base (exI 2)) e)%Q) /\
+  (length exSs <= p_k (f_base (exI 2)))%nat /\
+  (forall P w, decomposition (exI 2) P w -> constraints_covered (f_base (exI 2)) P ->
+     forall j S, nth_error exSs j = Some S -> exists i, In i (layers (p_k (f_base (exI 2)))) /\ incl S (EulerProofs1.pairs (P i))) /\
+  (forall j j' S S', j <> j' -> nth_error exSs j = Some S -> nth_error exSs j' = Some S' ->
+     forall l, NoDup l -> incl S (EulerProofs1.pairs l) -> incl S' (EulerProofs1.pairs l) -> False).
+Proof. exact ex_fix_all_premises. Qed.
+Print Assumptions C05_fixing_all_premises_satisfiable.
+
+Example C05_safety_as_constraints_hypotheses_satisfiable :
+  (forall c e, In c (p_cons (f_base (exI 2)) ++ exSs) -> In e c -> In e (g_edges (p_graph (f_base (exI 2)))) /\ (0 <= elen (f_base (exI 2)) e)%Q) /\
+  (p_cov (f_base (exI 2)) <= 1)%Q /\
+  (forall P w, decomposition (exI 2) P w -> constraints_covered (f_base (exI 2)) P ->
+     forall S, In S exSs -> exists i, In i (layers (p_k (f_base (exI 2)))) /\ incl S (EulerProofs1.pairs (P i))).
+Proof. exact ex_safety_cons_premises. Qed.
+Print Assumptions C05_safety_as_constraints_hypotheses_satisfiable.
+
+(* the cover version had no instance at all: kPathCover on the diamond with k = 2, no ignore list; the lists [(0,1)] and [(0,2)] are safe
+   because every cover passes every edge; the model is feasible *)
+Example C05_cover_safety_hypotheses_satisfiable :
+  PathEncProofs.wf_graph (p_graph (exB 2)) /\ p_allow_empty (exB 2) = false /\
+  (forall u v, In (u, v) (g_edges (p_graph (exB 2))) -> (exRank u < exRank v)%nat) /\ (forall v, (exRank v <= 3)%nat) /\
+  (forall c e, In c (p_cons (exB 2) ++ exSs) -> In e c -> In e (g_edges (p_graph (exB 2))) /\ (0 <= elen (exB 2) e)%Q) /\
+  (p_cov (exB 2) <= 1)%Q /\
+  (forall P, path_cover (exB 2) [] P -> constraints_covered (exB 2) P ->
+     forall S, In S exSs -> exists i, In i (layers (p_k (exB 2))) /\ incl S (EulerProofs1.pairs (P i))) /\
+  (exists a, sat a (encode_kpc (exB 2) [])).
+Proof. exact ex_cover_safety_premises. Qed.
+Print Assumptions C05_cover_safety_hypotheses_satisfiable.
